@@ -160,7 +160,37 @@ func c11Parse(op string) (*c11Case, bool) {
 	return c, true
 }
 
-func c11T(ts int64) time.Time { return time.Unix(ts, 0).UTC() }
+// c11Unit is the real duration of one unit of op time. The model computes on integers and the annotation is exact
+// and linear in time, so the op times can stand for seconds or for quarter seconds alike: the harness lays them out
+// around osm.CommitInfoStart (op time c11Start = CommitInfoStart, so the regime boundary is where the model has it),
+// one unit apart, and maps the time stamps of the result back. Every second case runs on quarter seconds: commit
+// times inside one second are then different times, as they are in a database.
+var c11Unit = time.Second
+
+func c11SetUnit(op string) {
+	h := uint32(2166136261)
+	for i := 0; i < len(op); i++ {
+		h = (h ^ uint32(op[i])) * 16777619
+	}
+	c11Unit = time.Second
+	if h&1 == 1 {
+		c11Unit = 250 * time.Millisecond
+	}
+}
+
+func c11T(ts int64) time.Time {
+	return time.Unix(c11Start, 0).UTC().Add(time.Duration(ts-c11Start) * c11Unit)
+}
+
+// c11Stamp is the inverse of c11T (for times that are whole units, which every time the annotation hands back is)
+func c11Stamp(t time.Time) int64 {
+	d := t.Sub(time.Unix(c11Start, 0))
+	q := int64(d / c11Unit)
+	if d%c11Unit != 0 {
+		return -1<<62 + q // not a whole unit: no op time stands for it
+	}
+	return c11Start + q
+}
 func c11TP(ts int64, has bool) *time.Time {
 	if !has {
 		return nil
@@ -197,7 +227,7 @@ func (c *c11Case) datasource() *osm.HistoryDatasource {
 }
 
 func (c *c11Case) options() []annotate.Option {
-	opts := []annotate.Option{annotate.Threshold(time.Duration(c.thr) * time.Second)}
+	opts := []annotate.Option{annotate.Threshold(time.Duration(c.thr) * c11Unit)}
 	if c.ii {
 		opts = append(opts, annotate.IgnoreInconsistency(true))
 	}
@@ -272,7 +302,7 @@ func (c *c11Case) run() c11Out {
 			if u.Reverse {
 				rev = 1
 			}
-			fmt.Fprintf(&b, " %d:%d:%d:%d:%d:%d:%d", u.Index, u.Version, u.Timestamp.Unix(), u.ChangesetID, int64(u.Lat*2), int64(u.Lon*2), rev)
+			fmt.Fprintf(&b, " %d:%d:%d:%d:%d:%d:%d", u.Index, u.Version, c11Stamp(u.Timestamp), u.ChangesetID, int64(u.Lat*2), int64(u.Lon*2), rev)
 		}
 	}
 	for i := range c.ps {
@@ -362,6 +392,7 @@ func c11Exec(op string, repeats int) (string, *Violation) {
 	if !ok {
 		return "bad-op", nil
 	}
+	c11SetUnit(op)
 	first := c.run()
 	// C12: annotation is a function of its input
 	for i := 1; i < repeats; i++ {
@@ -400,7 +431,7 @@ func c11Exec(op string, repeats int) (string, *Violation) {
 				if a.Index == b.Index && a.Timestamp.Equal(b.Timestamp) {
 					sig = "updates-tie-order"
 				}
-				return &Violation{Signature: sig, Text: fmt.Sprintf("parent version %d: update %d (index %d, t %d, v %d) before update %d (index %d, t %d, v %d)", pi+1, k-1, a.Index, a.Timestamp.Unix(), a.Version, k, b.Index, b.Timestamp.Unix(), b.Version)}
+				return &Violation{Signature: sig, Text: fmt.Sprintf("parent version %d: update %d (index %d, t %d, v %d) before update %d (index %d, t %d, v %d)", pi+1, k-1, a.Index, c11Stamp(a.Timestamp), a.Version, k, b.Index, c11Stamp(b.Timestamp), b.Version)}
 			}
 		}
 		return nil
@@ -468,7 +499,7 @@ func (c *c11Case) refilter(first c11Out) *Violation {
 	render := func(us osm.Updates) string {
 		var b strings.Builder
 		for _, u := range us {
-			fmt.Fprintf(&b, " %d:%d:%d", u.Index, u.Version, u.Timestamp.Unix())
+			fmt.Fprintf(&b, " %d:%d:%d", u.Index, u.Version, c11Stamp(u.Timestamp))
 		}
 		return b.String()
 	}
@@ -721,7 +752,7 @@ func (c *c11Case) timeTravel(o c11Out) *Violation {
 				if cur, ok := currentAt(p.refs[u.Index].fid, p.commit); !ok || !cur.vis {
 					continue
 				}
-				if u.Timestamp.Unix() <= p.commit || (i+1 < len(c.ps) && u.Timestamp.Unix() > c.ps[i+1].commit) {
+				if c11Stamp(u.Timestamp) <= p.commit || (i+1 < len(c.ps) && c11Stamp(u.Timestamp) > c.ps[i+1].commit) {
 					return &Violation{Signature: "update-outside-window", Text: fmt.Sprintf("parent version %d (commit %d, next commit %v): update %+v is stamped at or before this version's commit or after the next version's commit", i+1, p.commit, end, u)}
 				}
 			}
